@@ -1198,3 +1198,46 @@ class Pkcs1DecodeLib(object):
                    h_len, K.buf(to_elems(db), False, 'db'), db_len)
         _note_events(K, 'oaep_decode')
         return r
+
+
+# --------------------------------------------------------------------------------------------
+# scrypt ROMix / Salsa20 core / EKSBlowfish: uninterpreted (the cores are outside every glue claim)
+
+@register("Crypto.Protocol._scrypt")
+class ScryptLib(object):
+    def scryptROMix(self, data_in, data_out, data_len, N, core):
+        n = operator.index(data_len)
+        nn = operator.index(N)
+        wr(data_out, UF("SCRYPT_ROMIX_N%d" % nn, [rd(data_in, n)], n))
+        return 0
+
+
+@register("Crypto.Cipher._Salsa20")
+class Salsa20Lib(object):
+    def Salsa20_8_core(self, x, y, out):
+        wr(out, UF("SALSA20_8_CORE", [rd(x, 64), rd(y, 64)], 64))
+        return 0
+
+    def Salsa20_stream_init(self, key, klen, nonce, nlen, out):
+        klen, nlen = operator.index(klen), operator.index(nlen)
+        if klen not in (16, 32):
+            return ERR_KEY_SIZE
+        if nlen != 8:
+            return ERR_NONCE_SIZE
+        out.set(dict(key=rd(key, klen), nonce=rd(nonce, nlen), pos=0))
+        return 0
+
+    def Salsa20_stream_destroy(self, st):
+        return 0
+
+    def Salsa20_stream_encrypt(self, st, inp, outp, n):
+        n = operator.index(n)
+        data = rd(inp, n)
+        res = []
+        for i in range(n):
+            p = st['pos'] + i
+            blk = UF("SALSA20_BLOCK", [st['key'], st['nonce'], list((p // 64).to_bytes(8, 'little'))], 64)
+            res.append(xor_elems([data[i]], [blk[p % 64]])[0])
+        st['pos'] += n
+        wr(outp, res)
+        return 0
